@@ -360,6 +360,10 @@ func (v *Validator) DecodeRLP(s *rlp.Stream) error {
 	if err := s.Decode(&r); err != nil {
 		return err
 	}
+	// the flag is written as 0 or 1 only: any other value has no encoding of its own
+	if r.Expelled > 1 {
+		return fmt.Errorf("rlp: invalid expelled flag %d of a validator record", r.Expelled)
+	}
 
 	v.Name = r.Name
 	v.OperatorAddress = r.OperatorAddress
